@@ -1,1 +1,118 @@
-/-! C16 — property theorems (stub; no obligations yet) -/
+import Ypv.Lemmas.Cli
+/-!
+# C16 — the command-line tools deliver the library's answers and honest exit codes
+
+Theorems about the model of the six `main()` functions (`Model/Cli.lean`).  Every statement is for ALL
+argument records, TTY states, load results and ALL library answers (the evaluator `ev`, the differ,
+the path search `find`, the pairwise merge `m` are arbitrary functions).  PARTIAL BY DESIGN: argparse,
+(de)serialisation and text layout are outside the model; the tie to the real tools is the
+correspondence run of `harness/props/c16.py`.
+-/
+namespace Ypv.Cli
+
+/-! ## yaml-get -/
+
+/-- yaml-get exits 0 exactly when its arguments are accepted, the input loaded, the evaluator raised
+nothing and yielded at least one node. -/
+theorem get_exit_zero_iff_matched (ev : Node → Query) (a : GetArgs) (tty : Bool) (ld : Option Node) :
+    (get ev a tty ld).exit = 0 ↔
+      getErrors a tty = [] ∧ ∃ d, ld = some d ∧ (ev d).err = none ∧ (ev d).nodes ≠ [] :=
+  Lemmas.get_exit_zero_iff ev a tty ld
+
+/-- One output item per matched node, in query order: on success the output is the rendering of the
+evaluator's nodes, position by position; a failing run prints nothing. -/
+theorem get_lines_are_results (ev : Node → Query) (a : GetArgs) (tty : Bool) (ld : Option Node) :
+    ((get ev a tty ld).exit = 0 →
+        ∃ d, ld = some d ∧ (get ev a tty ld).out = (ev d).nodes.map render
+          ∧ (get ev a tty ld).out.length = (ev d).nodes.length
+          ∧ ∀ i : Nat, (get ev a tty ld).out[i]? = ((ev d).nodes[i]?).map render)
+    ∧ ((get ev a tty ld).exit ≠ 0 → (get ev a tty ld).out = []) :=
+  Lemmas.get_lines ev a tty ld
+
+/-- A container is printed as JSON, a scalar as text (null as the NUL character). -/
+theorem get_json_for_containers (n : Node) :
+    (n.isScalar = false → render n = .json n) ∧ (n.isScalar = true → ∃ s, render n = .text s) := by
+  cases n with
+  | scalar a v => cases v <;> simp [render, Node.isScalar]
+  | seq a xs => simp [render, Node.isScalar]
+  | map a xs => simp [render, Node.isScalar]
+  | set a xs => simp [render, Node.isScalar]
+
+/-- The argument-validation decision list of yaml-get: rejected (status 1, nothing printed) exactly
+when there is no input to read, a key file is unreadable, or only one of the two keys is given. -/
+theorem get_args_decision (ev : Node → Query) (a : GetArgs) (tty : Bool) (ld : Option Node) :
+    (getErrors a tty ≠ [] ↔
+        (a.file = none ∧ (a.nostdin = true ∨ tty = true)) ∨ a.priv = .bad ∨ a.pub = .bad
+          ∨ a.priv.isSet ≠ a.pub.isSet)
+    ∧ (getErrors a tty ≠ [] → get ev a tty ld = ⟨[], 1⟩) :=
+  Lemmas.get_args ev a tty ld
+
+/-- File or standard input: the outcome depends on the loaded input only — named file, `-`, and the
+implicit standard input of a non-TTY session agree. -/
+theorem get_stdin_eq_file (ev : Node → Query) (a : GetArgs) (tty tty' : Bool) (ld : Option Node) :
+    get ev { a with file := some .dash } tty ld = get ev { a with file := some .path } tty' ld
+    ∧ (a.nostdin = false →
+        get ev { a with file := none } false ld = get ev { a with file := some .path } tty' ld) :=
+  Lemmas.get_delivery ev a tty tty' ld
+
+/-! ## yaml-diff -/
+
+/-- yaml-diff (parametric in the differ and its entry type) exits 0 exactly when the arguments are
+accepted, both inputs load, a document is selected on each side and every entry of the differ's
+report is SAME. -/
+theorem diff_exit_zero_iff_clean {E : Type} (isSame : E → Bool) (differ : Node → Node → Option (List E))
+    (a : DiffArgs) (l r : Option (List Node)) (o : DiffOut E) (h : diff isSame differ a l r = some o) :
+    o.exit = 0 ↔
+      diffErrors a = [] ∧ ∃ ls rs ld rd rep, l = some ls ∧ r = some rs ∧ pickDoc ls a.lidx = .doc ld
+        ∧ pickDoc rs a.ridx = .doc rd ∧ differ ld rd = some rep ∧ ∀ e ∈ rep, isSame e = true :=
+  Lemmas.diff_exit_zero_iff isSame differ a l r o h
+
+/-- Otherwise it prints the differ's entries: the printed entries are the report filtered by the
+output options, in report order; the status is 0 or 1 and does not depend on what is printed. -/
+theorem diff_prints_report {E : Type} (isSame : E → Bool) (differ : Node → Node → Option (List E))
+    (a : DiffArgs) (ls rs : List Node) (ld rd : Node) (rep : List E)
+    (hv : diffErrors a = []) (hl : pickDoc ls a.lidx = .doc ld) (hr : pickDoc rs a.ridx = .doc rd)
+    (hd : differ ld rd = some rep) :
+    diff isSame differ a (some ls) (some rs)
+      = some ⟨rep.filter (shown isSame a), if rep.all isSame then 0 else 1⟩ :=
+  Lemmas.diff_report isSame differ a ls rs ld rd rep hv hl hr hd
+
+/-- `--quiet`, `--same`, `--onlysame` never change the exit status (as long as the combination is
+accepted). -/
+theorem diff_exit_ignores_output_options {E : Type} (isSame : E → Bool)
+    (differ : Node → Node → Option (List E)) (a : DiffArgs) (q s os : Bool) (l r : Option (List Node))
+    (hv : diffErrors a = []) (hv' : diffErrors { a with quiet := q, same := s, onlysame := os } = []) :
+    (diff isSame differ { a with quiet := q, same := s, onlysame := os } l r).map (·.exit)
+      = (diff isSame differ a l r).map (·.exit) :=
+  Lemmas.diff_exit_indep isSame differ a q s os l r hv hv'
+
+/-- The argument-validation decision list of yaml-diff. -/
+theorem diff_args_decision {E : Type} (isSame : E → Bool) (differ : Node → Node → Option (List E))
+    (a : DiffArgs) (l r : Option (List Node)) :
+    (diffErrors a ≠ [] ↔
+        (a.lhs = .dash ∧ a.rhs = .dash) ∨ (a.quiet = true ∧ (a.same = true ∨ a.onlysame = true))
+          ∨ a.config = .bad ∨ a.priv = .bad ∨ a.pub = .bad)
+    ∧ (diffErrors a ≠ [] → diff isSame differ a l r = some ⟨[], 1⟩) :=
+  Lemmas.diff_args isSame differ a l r
+
+/-! ## yaml-validate -/
+
+/-- yaml-validate exits 0 exactly when every document of every named input loaded and — when the
+session's standard input is read implicitly — every document of it as well; otherwise 2. -/
+theorem validate_exit_zero_iff_all_load (a : ValArgs) (tty : Bool) (loads : List (List Bool))
+    (stdin : List Bool) (hv : valErrors a tty = []) :
+    ((validate a tty loads stdin).exit = 0 ↔
+        (∀ f ∈ loads, ∀ b ∈ f, b = true)
+          ∧ (implicitStdin a.files a.nostdin tty = true → ∀ b ∈ stdin, b = true))
+    ∧ ((validate a tty loads stdin).exit = 0 ∨ (validate a tty loads stdin).exit = 2) :=
+  Lemmas.validate_exit a tty loads stdin hv
+
+/-- The argument-validation decision list of yaml-validate (and of the input part of yaml-merge and
+yaml-paths): rejected with status 1 exactly when nothing can be read or `-` is named twice. -/
+theorem validate_args_decision (a : ValArgs) (tty : Bool) (loads : List (List Bool)) (stdin : List Bool) :
+    (valErrors a tty ≠ [] ↔
+        (a.files = [] ∧ (tty = true ∨ a.nostdin = true)) ∨ manyDash a.files = true)
+    ∧ (valErrors a tty ≠ [] → validate a tty loads stdin = ⟨[], 1⟩) :=
+  Lemmas.validate_args a tty loads stdin
+
+end Ypv.Cli
